@@ -1,6 +1,213 @@
 package main
 
-import "errors"
+import (
+	"bytes"
+	"fmt"
+	"go/ast"
+	"go/format"
+	"go/parser"
+	"go/token"
+	"reflect"
+	"strconv"
+)
 
-// rewriteChans is replaced by the real rewriter in chanrw.go once C18 is built.
-var rewriteChans = func(src []byte) ([]byte, error) { return nil, errors.New("channel rewriter not built") }
+const vchanPath = shimBase + "vchan"
+
+// rewriteChans turns the channel constructs of a file into scheduler-visible
+// ones (see /verif/shim/vchan). It fails on anything it does not support; the
+// caller then leaves the file as it is.
+func rewriteChans(src []byte) ([]byte, error) {
+	fset := token.NewFileSet()
+	f, err := parser.ParseFile(fset, "notify.go", src, parser.ParseComments)
+	if err != nil {
+		return nil, err
+	}
+	rw := &chanRewriter{}
+	for i, d := range f.Decls {
+		f.Decls[i] = rw.node(d).(ast.Decl)
+	}
+	if rw.err != nil {
+		return nil, rw.err
+	}
+	if !rw.changed {
+		return src, nil
+	}
+	// add the import
+	imp := &ast.ImportSpec{Path: &ast.BasicLit{Kind: token.STRING, Value: strconv.Quote(vchanPath)}}
+	added := false
+	for _, d := range f.Decls {
+		if gd, ok := d.(*ast.GenDecl); ok && gd.Tok == token.IMPORT {
+			gd.Specs = append(gd.Specs, imp)
+			if !gd.Lparen.IsValid() {
+				gd.Lparen = gd.Pos()
+				gd.Rparen = gd.End()
+			}
+			added = true
+			break
+		}
+	}
+	if !added {
+		f.Decls = append([]ast.Decl{&ast.GenDecl{Tok: token.IMPORT, Specs: []ast.Spec{imp}}}, f.Decls...)
+	}
+	f.Imports = append(f.Imports, imp)
+	f.Comments = nil // positions no longer match; comments are irrelevant to the build
+	var buf bytes.Buffer
+	if err := format.Node(&buf, fset, f); err != nil {
+		return nil, err
+	}
+	return buf.Bytes(), nil
+}
+
+type chanRewriter struct {
+	err     error
+	changed bool
+}
+
+func (r *chanRewriter) fail(format string, a ...any) {
+	if r.err == nil {
+		r.err = fmt.Errorf(format, a...)
+	}
+}
+
+func sel(x ast.Expr, name string) *ast.SelectorExpr {
+	return &ast.SelectorExpr{X: x, Sel: ast.NewIdent(name)}
+}
+
+func vchanSel(name string) *ast.SelectorExpr { return sel(ast.NewIdent("vchan"), name) }
+
+var (
+	exprType = reflect.TypeOf((*ast.Expr)(nil)).Elem()
+	stmtType = reflect.TypeOf((*ast.Stmt)(nil)).Elem()
+	nodeType = reflect.TypeOf((*ast.Node)(nil)).Elem()
+)
+
+// node rewrites n bottom-up and returns its replacement.
+func (r *chanRewriter) node(n ast.Node) ast.Node {
+	if n == nil || reflect.ValueOf(n).IsNil() {
+		return n
+	}
+	// select statements are converted as a whole before their parts are visited
+	if s, ok := n.(*ast.SelectStmt); ok {
+		return r.selectStmt(s)
+	}
+	// v, ok := <-c must be seen before the unary receive inside it is rewritten
+	if as, ok := n.(*ast.AssignStmt); ok && len(as.Lhs) == 2 && len(as.Rhs) == 1 {
+		if u, ok := as.Rhs[0].(*ast.UnaryExpr); ok && u.Op == token.ARROW {
+			r.changed = true
+			x := r.node(u.X).(ast.Expr)
+			for i := range as.Lhs {
+				as.Lhs[i] = r.node(as.Lhs[i]).(ast.Expr)
+			}
+			as.Rhs[0] = &ast.CallExpr{Fun: sel(x, "Recv2")}
+			return as
+		}
+	}
+	v := reflect.ValueOf(n).Elem()
+	for i := 0; i < v.NumField(); i++ {
+		fld := v.Field(i)
+		switch fld.Kind() {
+		case reflect.Interface, reflect.Ptr:
+			if fld.IsNil() || !fld.CanInterface() {
+				continue
+			}
+			if c, ok := fld.Interface().(ast.Node); ok {
+				if _, isObj := fld.Interface().(*ast.Object); isObj {
+					continue
+				}
+				nn := r.node(c)
+				if nn != c {
+					fld.Set(reflect.ValueOf(nn))
+				}
+			}
+		case reflect.Slice:
+			for j := 0; j < fld.Len(); j++ {
+				e := fld.Index(j)
+				if (e.Kind() == reflect.Interface || e.Kind() == reflect.Ptr) && !e.IsNil() {
+					if c, ok := e.Interface().(ast.Node); ok {
+						nn := r.node(c)
+						if nn != c {
+							e.Set(reflect.ValueOf(nn))
+						}
+					}
+				}
+			}
+		}
+	}
+	switch x := n.(type) {
+	case *ast.ChanType:
+		r.changed = true
+		if x.Dir != ast.SEND|ast.RECV {
+			r.fail("directional channel types are not supported")
+		}
+		return &ast.StarExpr{X: &ast.IndexExpr{X: vchanSel("Chan"), Index: x.Value}}
+	case *ast.CallExpr:
+		if id, ok := x.Fun.(*ast.Ident); ok && id.Name == "make" && len(x.Args) >= 1 {
+			// the channel type argument has already been rewritten to *vchan.Chan[T]
+			if st, ok := x.Args[0].(*ast.StarExpr); ok {
+				if ix, ok := st.X.(*ast.IndexExpr); ok {
+					if se, ok := ix.X.(*ast.SelectorExpr); ok && se.Sel.Name == "Chan" {
+						var n ast.Expr = &ast.BasicLit{Kind: token.INT, Value: "0"}
+						if len(x.Args) > 1 {
+							n = x.Args[1]
+						}
+						return &ast.CallExpr{Fun: &ast.IndexExpr{X: vchanSel("Make"), Index: ix.Index}, Args: []ast.Expr{n}}
+					}
+				}
+			}
+		}
+		if id, ok := x.Fun.(*ast.Ident); ok && id.Name == "close" && len(x.Args) == 1 {
+			r.changed = true
+			return &ast.CallExpr{Fun: sel(x.Args[0], "Close")}
+		}
+	case *ast.SendStmt:
+		r.changed = true
+		return &ast.ExprStmt{X: &ast.CallExpr{Fun: sel(x.Chan, "Send"), Args: []ast.Expr{x.Value}}}
+	case *ast.UnaryExpr:
+		if x.Op == token.ARROW {
+			r.changed = true
+			return &ast.CallExpr{Fun: sel(x.X, "Recv")}
+		}
+	case *ast.RangeStmt:
+		// ranging over a channel cannot be told apart syntactically; notify does not do it
+	}
+	return n
+}
+
+func (r *chanRewriter) selectStmt(s *ast.SelectStmt) ast.Node {
+	r.changed = true
+	var args []ast.Expr
+	sw := &ast.SwitchStmt{Body: &ast.BlockStmt{}}
+	for i, c := range s.Body.List {
+		cc := c.(*ast.CommClause)
+		if cc.Comm == nil {
+			r.fail("select with default is not supported")
+			return s
+		}
+		es, ok := cc.Comm.(*ast.ExprStmt)
+		if !ok {
+			r.fail("select case with assignment or send is not supported")
+			return s
+		}
+		u, ok := es.X.(*ast.UnaryExpr)
+		if !ok || u.Op != token.ARROW {
+			r.fail("unsupported select case")
+			return s
+		}
+		ch := r.node(u.X).(ast.Expr)
+		fn := "RecvOf"
+		if call, ok := ch.(*ast.CallExpr); ok {
+			if se, ok := call.Fun.(*ast.SelectorExpr); ok && se.Sel.Name == "Done" {
+				fn = "Real"
+			}
+		}
+		args = append(args, &ast.CallExpr{Fun: vchanSel(fn), Args: []ast.Expr{ch}})
+		body := make([]ast.Stmt, len(cc.Body))
+		for j, st := range cc.Body {
+			body[j] = r.node(st).(ast.Stmt)
+		}
+		sw.Body.List = append(sw.Body.List, &ast.CaseClause{List: []ast.Expr{&ast.BasicLit{Kind: token.INT, Value: strconv.Itoa(i)}}, Body: body})
+	}
+	sw.Tag = &ast.CallExpr{Fun: vchanSel("Select"), Args: args}
+	// a function ending in a select needs a terminating statement after the switch
+	return &ast.BlockStmt{List: []ast.Stmt{sw, &ast.ExprStmt{X: &ast.CallExpr{Fun: ast.NewIdent("panic"), Args: []ast.Expr{&ast.BasicLit{Kind: token.STRING, Value: `"vchan: select returned no case"`}}}}}}
+}
